@@ -204,6 +204,13 @@ def rule_get_or(ctx: Ctx) -> RuleResult:
     return rr
 
 
+def _trim_frame(ctx: Ctx):
+    """overlay / side trims cut text lines with calc_trim_text: its column-frame rule is a necessary condition here"""
+    from . import c11
+
+    return c11.rule_trim_frame(ctx, "C02.10")
+
+
 def run(ctx: Ctx):
     p = ctx.p
     return [
@@ -215,7 +222,8 @@ def run(ctx: Ctx):
         rule_cut_attr(ctx),
         rule_delta(ctx),
         rule_get_or(ctx),
-        accum.run_accum(p, "C02.9", "C02", floor=6),
+        accum.run_accum(p, "C02.9", "C02", floor=5),
+        _trim_frame(ctx),
     ]
 
 
